@@ -41,6 +41,10 @@ def run(ctx):
             for sched in (("static", "dynamic,1") if ctx.thorough else ("static",)):
                 for rep in (0, 1) if (ctx.thorough or T in (1, 5)) else (0,):
                     envs.append(dict(OMP_NUM_THREADS=str(T), OMP_DYNAMIC=dyn, OMP_SCHEDULE=sched, REP=str(rep)))
+    # the same analyses after a prelude of calls of the same functions on another system with other parameters (larger sphere meshes,
+    # other cutoffs, other index lists): a per-frame result may not depend on what the process computed before
+    for T in (1, 5):
+        envs.append(dict(OMP_NUM_THREADS=str(T), OMP_DYNAMIC="false", OMP_SCHEDULE="static", REP="0", HISTORY="1"))
     outs = []
 
     def go(i_env):
@@ -73,7 +77,7 @@ def run(ctx):
                 if key not in r or hashlib.sha256(np.ascontiguousarray(r[key]).tobytes()).hexdigest() != h0:
                     u = _ulps(ref[key], r[key]) if key in r else float("inf")
                     ctx.discrepancy(None, "%s (%s call): result under %s differs bitwise from the result under %s (%.3g ulp)" % (name, shape, env, ref_env, u),
-                                    dict(function=name, shape=shape, env=env, ref_env=ref_env, ulps=u), cls="%s: depends on the OpenMP environment" % name)
+                                    dict(function=name, shape=shape, env=env, ref_env=ref_env, ulps=u), cls="%s: depends on %s" % (name, "the calls made earlier in the process" if env.get("HISTORY") else "the OpenMP environment"))
         # (2) a frame computed inside a trajectory, alone, or in a permuted trajectory: the same (4 ulp; bitwise reported)
         for env, r, _ in (outs[0], outs[len(outs) // 2]):
             for other in ("alone", "perm"):
